@@ -67,6 +67,15 @@ class ULongLong(int):
     """an attribute value held as QVariant(qulonglong)"""
 
 
+class Float32(float):
+    """a number held in QVariant as a C float (QMetaType::Float); the Python value is the exact float32 value"""
+
+
+def float32(x):
+    import struct
+    return Float32(struct.unpack("<f", struct.pack("<f", x))[0])
+
+
 class NullStr(str):
     """a null QString (QString()), as opposed to an empty one (QString(""))"""
 
@@ -87,6 +96,9 @@ def enc_value(v):
         return "U %d" % v
     if isinstance(v, int):
         return "I %d" % v
+    if isinstance(v, Float32):
+        import struct
+        return "F %08x" % struct.unpack("<I", struct.pack("<f", v))[0]
     if isinstance(v, float):
         import struct
         return "D %016x" % struct.unpack("<Q", struct.pack("<d", v))[0]
